@@ -255,6 +255,11 @@ class _Folder:
                 py = {'str': str, 'int': int, 'bool': bool, 'dict': dict, 'list': list, 'float': float}.get(e.args[1].id)
                 if py is not None:
                     return ast.copy_location(ast.Constant(value=isinstance(a.value, py)), e)
+            if isinstance(a, (ast.Attribute, ast.Name)) and isinstance(e.args[1], (ast.Name, ast.Attribute)):
+                es_ = self.prog.resolve_expr_symbol(self.mod, a)
+                cs_ = self.prog.resolve_expr_symbol(self.mod, e.args[1])
+                if isinstance(es_, tuple) and es_[0] == 'enum_member' and isinstance(cs_, ClassInfo):
+                    return ast.copy_location(ast.Constant(value=es_[1] is cs_ or self.prog.is_subclass(es_[1].fq, cs_.fq)), e)
             return e
         if isinstance(f, ast.Name) and f.id == 'getattr' and len(e.args) == 2:
             nm = self.fold(e.args[1])
@@ -417,7 +422,8 @@ class _Folder:
                 return out, True
             if isinstance(st, (ast.Assign, ast.AnnAssign)) and getattr(st, 'value', None) is not None:
                 tgt = st.targets[0] if isinstance(st, ast.Assign) and len(st.targets) == 1 else getattr(st, 'target', None)
-                if isinstance(tgt, ast.Name) and (self.stored.get(tgt.id, 0) == 1 or tgt.id in self.sequential):
+                if (isinstance(tgt, ast.Name) and (self.stored.get(tgt.id, 0) == 1 or tgt.id in self.sequential)) or \
+                        (isinstance(tgt, ast.Attribute) and isinstance(tgt.value, ast.Name) and tgt.value.id == 'self'):
                     inl = self._inline_value_call(st.value)
                     if inl is not None:
                         pre, val0 = inl
@@ -514,7 +520,14 @@ class _Folder:
                 elif mm is not None and mm.is_static:
                     m = mm
             elif not (isinstance(f.value, ast.Name) and f.value.id == 'self'):
-                rec = self._record(f.value)
+                # a method of an enum member this folder knows (`self.indentor.whitespace(n)` under `self.indentor` == SPACES)
+                recv_ = self.fold(f.value)
+                es_ = self.prog.resolve_expr_symbol(self.mod, recv_) if isinstance(recv_, (ast.Attribute, ast.Name)) else None
+                if isinstance(es_, tuple) and es_[0] == 'enum_member':
+                    mm = self.prog.lookup_method(es_[1], f.attr)
+                    if mm is not None and not mm.is_property and not mm.is_static and not getattr(mm, 'is_classmethod', False):
+                        m, bound = mm, {mm.params()[0].arg: recv_}
+                rec = self._record(f.value) if m is None else None
                 if rec is not None:
                     mm = self.prog.lookup_method(rec[0], f.attr)
                     if mm is not None and not mm.is_property and not mm.is_static and not getattr(mm, 'is_classmethod', False):
